@@ -290,9 +290,35 @@ def rule_R3(text):
     return text[:toks[e0].start] + new + text[toks[tw_close + 4].end:]
 
 
-RULES = {"R1": rule_R1, "R2": rule_R2, "R3": rule_R3}
+def rule_R4(text):
+    """E.iter().any(|v| P)
+       -> ({ let mut __a = false; for __r in E.iter() { let v = __r; if P { __a = true; break; } } __a })"""
+    toks = tokenize(text)
+    hits = [i for i in range(len(toks))
+            if _seq(toks, i, [".", "iter", "(", ")", ".", "any", "(", "|"])
+            and toks[i + 8].kind == "id" and toks[i + 9].text == "|"]
+    if len(hits) != 1:
+        raise Unsupported("R4 matches %d times" % len(hits))
+    i = hits[0]
+    v = toks[i + 8].text
+    any_open = i + 6
+    any_close = match_close(toks, any_open)
+    e0 = _expr_start(toks, i, 0)
+    # the receiver may itself start after a keyword such as `if`
+    while toks[e0].kind == "id" and toks[e0].text in ("if", "while", "return", "let"):
+        e0 += 1
+    E = text[toks[e0].start:toks[i].start].strip()
+    P = text[toks[i + 9].end:toks[any_close].start].strip()
+    new = ("({ let mut __a = false; for __r in %s.iter() { let %s = __r; if %s { __a = true; break; } } __a })"
+           % (E, v, P))
+    return text[:toks[e0].start] + new + text[toks[any_close].end:]
+
+
+RULES = {"R1": rule_R1, "R2": rule_R2, "R3": rule_R3, "R4": rule_R4}
 
 RULE_TEXT = {
+    "R4": "E.iter().any(|v| P)  =>  ({ let mut __a = false; for __r in E.iter() { let v = __r; if P "
+          "{ __a = true; break; } } __a })",
     "R1": "E.iter().for_each(|&v| B);  =>  for __r in E.iter() { let v = *__r; B; }",
     "R2": "E.iter().map(|&v| M).any(|s| P)  =>  { let mut __a = false; for __r in E.iter() "
           "{ let v = *__r; let s = M; if P { __a = true; break; } } __a }",
@@ -327,8 +353,9 @@ def drop_log(text, dropped):
 
 # --------------------------------------------------------------------------------------
 
-def _splice_fn(text, d, where):
-    """text: function item text.  d: directive dict.  Returns text with contracts spliced."""
+def _splice_fn(text, d, where, body_off=None):
+    """text: function item text.  d: directive dict.  Returns text with contracts spliced.
+    body_off: char offset of the body's '{' when the caller built the header itself (fragments)."""
     for r in d.get("rules", []):
         text = RULES[r](text)
     if d.get("drop_log"):
@@ -341,7 +368,10 @@ def _splice_fn(text, d, where):
     if d.get("rename"):
         nm = toks[fn_i + 1]
         edits.append((nm.start, d["rename"], nm.end - nm.start))
-    body_open = _body_brace(toks, fn_i)
+    if body_off is not None:
+        body_open = next(i for i, t in enumerate(toks) if t.start == body_off)
+    else:
+        body_open = _body_brace(toks, fn_i)
     # return value naming
     if d.get("ret"):
         arrow = None
@@ -652,6 +682,8 @@ def assemble(template_path, repo):
                 raise Unsupported("%s: fragment is not balanced" % where)
             if d.get("drop_log"):
                 frag = drop_log(frag, ex.dropped)
+            for r_ in d["rules"]:
+                frag = RULES[r_](frag)
             for a_, b_ in d["substs"]:
                 frag, nsub = re.subn(a_, b_, frag)
                 if nsub == 0:
@@ -662,11 +694,15 @@ def assemble(template_path, repo):
             text = wrapper + "\n" + (d.get("sig", "") + "\n" if d.get("sig") else "") + "{\n" + \
                 (d.get("pre", "") + "\n" if d.get("pre") else "")
             pre_lines = text.count("\n")
-            ex.frags.append({"file": rel, "path": segs, "tier": "T3", "line": src_line,
+            ex.frags.append({"file": rel, "path": segs, "tier": "T3", "line": src_line, "rules": list(d["rules"]),
                              "end_line": _line_of(src, item.body_open + le),
                              "start": d["start"], "stop": d["stop"]})
             start_out = len(out) + 1 + pre_lines
             full = text + frag + "\n" + (d.get("post", "") + "\n" if d.get("post") else "") + "}"
+            if d["loops"] or d["proofs"]:
+                hdr = wrapper + "\n" + (d.get("sig", "") + "\n" if d.get("sig") else "")
+                d2 = {"loops": d["loops"], "proofs": d["proofs"], "_dropped": ex.dropped}
+                full = _splice_fn(full, d2, where, body_off=len(hdr))
             out.extend(full.split("\n"))
             ex.linemap.append((start_out, start_out + frag.count("\n"), rel, src_line))
             if not d.get("novacuity"):
